@@ -379,6 +379,15 @@ def _pin_p38():
                                    f"sum 2 (= the default) was dropped")
 
 
+def _pin_p42():
+    t = Tensor(rank_ids=["M", "K", "N", "P"], shape=[3, 2, 2, 1], default=2)
+    for p, v in {(1, 0, 1, 0): -2, (1, 1, 0, 0): 4, (2, 0, 0, 0): 0}.items():
+        t.getPayloadRef(*p).__ilshift__(v)
+    got = observe.tensor_content(t.mergeRanks(depth=0, levels=2, coord_style="relative"))
+    return None if got == {} else (f"mergeRanks(depth=0, levels=2, relative, sum) of -2 + 4 + 0 above a rank P under default 2 "
+                                   f"gives {got}: the partial sum 2 (= the default) inside a merged sub-fiber was dropped")
+
+
 def _pin_p39():
     t = Tensor(rank_ids=["M", "K", "N"], shape=[2, 1, 2])
     for p, v in {(0, 0, 1): -1, (1, 0, 0): 1}.items():
@@ -401,4 +410,5 @@ def _pin_p41():
 
 
 PINNED = {"P41-merged-subfiber-loses-default": _pin_p41, "P39-merge-pads-uncompressed-ranks": _pin_p39, "P21-unflatten-estimated-shape": _pin_p21, "P22-merge-pads-with-default": _pin_p22,
-          "P35-flatten-default-from-empty-lower": _pin_p35, "P38-multilevel-merge-drops-default-valued-partial": _pin_p38}
+          "P35-flatten-default-from-empty-lower": _pin_p35, "P38-multilevel-merge-drops-default-valued-partial": _pin_p38,
+          "P42-merged-subfiber-drops-default-valued-partial": _pin_p42}
